@@ -463,6 +463,11 @@ def check(chk):
     chk.ob("UNIT-7", "credits do not expire during a game", rms >= {"'clear_fractional_credits'", "'clear_all_credits'"}, gs.where(), detail=str(rms),
            construct=gs.ident, text="expiry paused in game")
 
+    # the expiry timers are stopped only by the start of a game (by name); no other method of the credits mode wipes its delays - switching
+    # between free and credit play, or enabling credit play again, must not make the credits immortal
+    wipes = [(m_, c) for m_ in cr.methods.values() for c in m_.calls() if call_attr(c) == "clear" and isinstance(c.func, ast.Attribute) and src(c.func.value) == "self.delay"]
+    chk.ob("UNIT-7", "no method of the credits mode wipes all its delays (the expiry timers are stopped by name, when a game starts)", not wipes,
+           wipes[0][0].where(wipes[0][1]) if wipes else cr.where(), detail=", ".join(m_.name for m_, _ in wipes), construct=cr.ident, text="credit delays wiped")
     from sa.helpers import setting_value_source
     setting_value_source(chk, "TABLE-10")
     # free play or credit play is the operator's *setting*: the configured `free_play` is only its default.  The config value is read at one
@@ -544,6 +549,7 @@ def check(chk):
 def battery():
     from sa.battery import M
     return [
+        M("handler clean-up also wipes the expiry timers", CR, "        self.machine.events.remove_handler(self._credit_event_callback)\n", "        self.machine.events.remove_handler(self._credit_event_callback)\n        self.delay.clear()\n", "UNIT-7"),
         M("expiry resumed on game_ended only", CR, "        self.add_mode_event_handler('mode_game_stopped',\n                                    self._game_ended)", "        self.add_mode_event_handler('game_ended',\n                                    self._game_ended)", "UNIT-7"),
         M("new player charged according to the configured default", CR, "    def _player_added(self, **kwargs):\n        del kwargs\n        if self.machine.settings.get_setting_value('free_play'):", "    def _player_added(self, **kwargs):\n        del kwargs\n        if self.credits_config['free_play']:", "TABLE-10"),
         M("cap overwritten by total", CR, "            self.machine.variables.set_machine_var('credit_units', max_credit_units)\n            total_credit_units = max_credit_units\n", "            self.machine.variables.set_machine_var('credit_units', max_credit_units)\n", "BOUND-2"),
